@@ -200,3 +200,10 @@ def guarded(mon: str, fn: Callable[[], None]) -> None:
     except Exception as exc:  # noqa: BLE001 - the oracle, not the code under test, failed
         LOG.skipped(mon, 'oracle-error:' + type(exc).__name__ + ':' + _short(str(exc), 120))
         LOG.notes.append(traceback.format_exc(limit=6)[-1500:]) if len(LOG.notes) < 20 else None
+
+
+def unwrap(fn: Any) -> Any:
+    """The function originally stored on the class, below any monitor wrappers."""
+    while hasattr(fn, '_fvm_orig'):
+        fn = fn._fvm_orig
+    return fn
